@@ -372,6 +372,11 @@ def run(ck, fx, cg, tier, feeny=False, rule="R9.table"):
     from . import shared as _sh
     for cname, okc, whyc in _sh.ast_constructors(fx, only={"operation", "call_operator", "call_method"}):
         ck.ob("R9.executed", "parser|AST::%s" % cname, okc, "src/parser/mod.rs", whyc)
+    # "any other combination fails the program": the Err a built-in raises has to reach the process' exit status —
+    # C10's propagation obligations on the path from the dispatch tables to `main` (no `.ok()`, `unwrap_or_else(print)`,
+    # swallowed Result; no success exit after a failure), evaluated as one presupposition
+    _sh.presuppose(ck, fx, cg, "C10", lambda o: o["rule"] in ("R10.propagate", "R10.noexit0"), "R9.fails",
+                   "a failing built-in fails the program (its error reaches the exit status)", floor=10)
     # wrapping forms are present where S4 says wrapping (positive evidence for + - *)
     # ---------------------------------------------------------------- arity
     from . import c14_templates
